@@ -216,8 +216,8 @@ PLAN = {
         level_text="Fault enumeration: for every generated (table, renderer) pair the space of single write-fault points (index x 3 modes) is enumerated completely (for the rare tables replayed to tens of kilobytes the indices are sampled: every step-th plus the last two); after each fault the same wrapper is driven through a second faulty render and a healthy one. Tables, error values and writer kinds are drawn by rapid. Complete per ordinary table, exploratory over tables.",
         level_note="Faults are injected at the granularity of calls to the writer (Write, and WriteString/WriteByte when the writer offers them) with three failure modes; of multi-fault sequences only 'fault at k, then one fault in the next render on the same wrapper' is exercised. Tables whose fault-free render fails are skipped (counted).",
         technique="fault injection enumerated over every write index x failure mode, on rapid-generated tables (property-based testing)",
-        quick=[rapid("prop", "TestProp", 80, shards=4, min_evals=80), enum("cross", "TestCross", shards=4)],
-        thorough=[rapid("prop", "TestProp", 2500, shards=16, min_evals=2500, timeout=6000), enum("cross", "TestCross", shards=4)],
+        quick=[rapid("prop", "TestProp", 80, shards=4, min_evals=80), enum("cross", "TestCross", shards=16)],
+        thorough=[rapid("prop", "TestProp", 2500, shards=16, min_evals=2500, timeout=6000), enum("cross", "TestCross", shards=16)],
     ),
     "C16": dict(
         pkg="c16",
